@@ -430,11 +430,20 @@ def validate_traces(traces, header, label="tr", shard_events=4000, max_procs=Non
     stats): results[i] is the RESULT record for traces[i] (errs == [] means
     every event was allowed by the specification)."""
     ensure_built()
+    # events may carry a weight hint "w" (table events stand for many evaluations)
+    def evw(e):
+        if "w" in e:
+            return e["w"]
+        name = str(e.get("ps", "")) + str(e.get("grp", ""))
+        return 40 if "Ed25519" in name else 6 if ("1024" in name or "2048" in name or "3072" in name) else 1
+    weight = lambda t: sum(evw(e) for e in t["events"])
+    total = sum(weight(t) for t in traces)
+    per = max(200, min(shard_events, total // (max_procs or NCPU) + 1))
     shards, cur, n = [], [], 0
     for i, t in enumerate(traces):
         cur.append((i, t))
-        n += len(t["events"])
-        if n >= shard_events:
+        n += weight(t)
+        if n >= per:
             shards.append(cur)
             cur, n = [], 0
     if cur:
